@@ -48,7 +48,14 @@ pub fn parse_csv_row(row: &str) -> Vec<String> {
         let end = match result {
             ReadFieldResult::InputEmpty => true,
             ReadFieldResult::Field { .. } => false,
-            ReadFieldResult::End => true,
+            ReadFieldResult::End => {
+                // `End` follows the last field, which has already been pushed, unless the row
+                // is empty (a single empty cell).
+                if !features.is_empty() {
+                    break;
+                }
+                true
+            }
             _ => unreachable!(),
         };
         features.push(std::str::from_utf8(&output[..nout]).unwrap().to_string());
